@@ -459,17 +459,23 @@ func (sc *serverConn) handleStreams() {
 	// window state owned by this single goroutine.
 	curInitialWindow := int32(defaultWindowSize)
 
+	// discarded is the header block, if any, that is being decoded without a
+	// stream to deliver it to.
+	var discarded discardedBlock
+
 	// closedStrms remembers recently closed stream ids so that a late frame on
 	// one can be told apart from a frame on a stream that was never opened,
 	// which is a protocol error rather than something to ignore. Only the most
 	// recent ids are kept: a peer that has not caught up is at most a round
 	// trip behind, and an unbounded set would grow for the whole life of the
 	// connection.
-	closedStrms := make(map[uint32]struct{}, closedStrmsCap)
+	closedStrms := make(map[uint32]bool, closedStrmsCap)
 	closedRing := make([]uint32, 0, closedStrmsCap)
 	closedOldest := 0
 
-	markClosed := func(id uint32) {
+	// ours: the server ended the stream with RST_STREAM (or refused it) while
+	// the peer could still be sending on it.
+	markClosed := func(id uint32, ours bool) {
 		if _, ok := closedStrms[id]; ok {
 			return
 		}
@@ -482,7 +488,7 @@ func (sc *serverConn) handleStreams() {
 			closedOldest = (closedOldest + 1) % closedStrmsCap
 		}
 
-		closedStrms[id] = struct{}{}
+		closedStrms[id] = ours
 	}
 
 	// releaseStream returns a finished stream and its context to the pools and
@@ -507,7 +513,7 @@ func (sc *serverConn) handleStreams() {
 	closeStream := func(strm *Stream) {
 		strmID := strm.ID()
 
-		markClosed(strmID)
+		markClosed(strmID, strm.weReset)
 		strms.Del(strmID)
 
 		sc.closeBodyStream(strm)
@@ -633,6 +639,7 @@ loop:
 					sc.logger.Printf("Stream timed out: %d\n", strm.ID())
 				}
 				sc.writeReset(strm.ID(), StreamCanceled)
+				strm.weReset = true
 
 				// set the state to closed in case it comes back to life later
 				strm.SetState(StreamStateClosed)
@@ -706,6 +713,16 @@ loop:
 				strm = strms.Search(fr.Stream())
 			}
 
+			if strm == nil && fr.Type() == FrameContinuation && discarded.stream == fr.Stream() {
+				// the header block of a stream that is not being served goes on
+				if err := sc.discardHeaderBlock(fr, &discarded); err != nil {
+					sc.writeGoAway(fr.Stream(), CompressionError, err.Error())
+					break loop
+				}
+
+				continue
+			}
+
 			if strm == nil {
 				// if the stream doesn't exist, create it
 
@@ -737,7 +754,7 @@ loop:
 					continue
 				}
 
-				if _, ok := closedStrms[fr.Stream()]; ok {
+				if ours, ok := closedStrms[fr.Stream()]; ok {
 					// A WINDOW_UPDATE, RST_STREAM or PRIORITY frame may
 					// legitimately arrive shortly after a stream is closed,
 					// because the peer had not yet processed the END_STREAM or
@@ -747,6 +764,21 @@ loop:
 					// error.
 					switch fr.Type() {
 					case FramePriority, FrameWindowUpdate, FrameResetStream:
+					case FrameHeaders:
+						if !ours {
+							sc.writeGoAway(fr.Stream(), StreamClosedError, "frame on closed stream")
+							break
+						}
+
+						// Trailers that were on their way when we reset or
+						// refused the stream: ignored like everything else the
+						// peer sent before it knew (RFC 7540 5.1), except that
+						// their header block still changes the compression
+						// state both ends share (4.3), so it is decoded.
+						if err := sc.discardHeaderBlock(fr, &discarded); err != nil {
+							sc.writeGoAway(fr.Stream(), CompressionError, err.Error())
+							break loop
+						}
 					case FrameData:
 						// The peer may have sent this before it saw our
 						// RST_STREAM or our END_STREAM: that is the stream's
@@ -781,12 +813,12 @@ loop:
 					// sent on it (its body, a WINDOW_UPDATE) is then handled
 					// like any other frame that is late for a closed stream,
 					// DATA being handed back to the connection window.
-					markClosed(fr.Stream())
+					markClosed(fr.Stream(), true)
 
 					// The header block of a stream we refuse still changes
 					// the compression state both ends share (RFC 7540 4.3).
 					if fr.Type() == FrameHeaders {
-						if err := sc.discardHeaderBlock(fr); err != nil {
+						if err := sc.discardHeaderBlock(fr, &discarded); err != nil {
 							sc.writeGoAway(fr.Stream(), CompressionError, err.Error())
 							break loop
 						}
@@ -1052,6 +1084,7 @@ func (sc *serverConn) writeError(strm *Stream, err error) {
 		}
 
 		sc.writeReset(strm.ID(), InternalError)
+		strm.weReset = true
 		strm.SetState(StreamStateClosed)
 
 		return
@@ -1071,6 +1104,7 @@ func (sc *serverConn) writeError(strm *Stream, err error) {
 		}
 
 		sc.writeReset(strm.ID(), streamErr.Code())
+		strm.weReset = true
 	}
 
 	if strm != nil {
@@ -1452,23 +1486,64 @@ func (sc *serverConn) handleHeaderFrame(strm *Stream, fr *FrameHeader) error {
 	return err
 }
 
+// discardedBlock is the state of a header block that is decoded for its effect
+// on the dynamic table only, because it belongs to a stream that is not being
+// served: the id of the stream while the block has not ended (0 otherwise),
+// the start of a field a frame boundary cut in two, and the number of fields
+// decoded so far.
+type discardedBlock struct {
+	stream  uint32
+	pending []byte
+	fields  int
+}
+
 // discardHeaderBlock runs a header block fragment through the HPACK decoder
-// for its effect on the dynamic table only.
-func (sc *serverConn) discardHeaderBlock(fr *FrameHeader) error {
+// for its effect on the dynamic table only. Like any header block it may go on
+// in CONTINUATION frames, split at any octet.
+func (sc *serverConn) discardHeaderBlock(fr *FrameHeader, blk *discardedBlock) error {
 	hf := AcquireHeaderField()
 	defer ReleaseHeaderField(hf)
 
-	b := fr.Body().(FrameWithHeaders).Headers()
-	fields := 0
-
-	var err error
-
-	for len(b) > 0 && err == nil {
-		b, _, err = sc.dec.nextField(hf, true, fields, b)
-		fields++
+	if fr.Type() != FrameContinuation {
+		blk.pending = blk.pending[:0]
+		blk.fields = 0
 	}
 
-	return err
+	blk.stream = fr.Stream()
+	if fr.Flags().Has(FlagEndHeaders) {
+		blk.stream = 0
+	}
+
+	b := append(blk.pending, fr.Body().(FrameWithHeaders).Headers()...)
+	blk.pending = b[:0]
+
+	for len(b) > 0 {
+		pb := b
+
+		var (
+			got bool
+			err error
+		)
+
+		b, got, err = sc.dec.nextField(hf, blk.fields == 0, blk.fields, b)
+		if err != nil {
+			if errors.Is(err, ErrUnexpectedSize) && !fr.Flags().Has(FlagEndHeaders) {
+				blk.pending = append(blk.pending, pb...)
+
+				return nil
+			}
+
+			return err
+		}
+
+		if !got {
+			break
+		}
+
+		blk.fields++
+	}
+
+	return nil
 }
 
 // validateRequestPseudoHeaders enforces that a completed request header block
